@@ -1065,6 +1065,10 @@ impl ActiveFile {
 
         let file = fs.open_existing(file_path)?;
 
+        // The file may have been created by an attempt that failed
+        // before its entry was synced to the parent directory
+        fs.sync_parent(file_path)?;
+
         let file_size_bytes = file.len()?;
 
         Ok(ActiveFile {
